@@ -705,10 +705,22 @@ pub fn c18_special(reg: &Registry, cfg: &Cfg, out: &mut Out) {
         if tt.kind() != "ref" || pt.kind() != "ref" {
             continue;
         }
-        // large amounts that carry fractional digits (every factor and the result stay inside the range)
-        for (k, (m1, m2, m3)) in [(12345678901234567u64, 98765432109876543u64, 55555555555555555u64), (10000000000000001, 10000000000000003, 99999999999999999), (31415926535897932, 27182818284590452, 14142135623730951)].iter().enumerate() {
-            let big = |m: u64| from_parts_dec(false, m, -1);
-            let (ta, pm, qa) = (big(*m1), big(*m3), big(*m2));
+        // large amounts that carry many fractional digits: every factor, the result and their values in the
+        // smallest units stay inside the range (for quantities whose smallest unit is not tiny), but products
+        // of two of them do not fit the decimal representation
+        #[cfg(feature = "dec")]
+        let bigs: Vec<AmountT> = vec![
+            AmountT::new_raw(3141592653589793238462643, 12),
+            AmountT::new_raw(2718281828459045235360287, 12),
+            AmountT::new_raw(1414213562373095048801688, 12),
+            AmountT::new_raw(12345678901234567, 1),
+            AmountT::new_raw(98765432109876543, 1),
+            AmountT::new_raw(55555555555555555, 1),
+        ];
+        #[cfg(not(feature = "dec"))]
+        let bigs: Vec<AmountT> = vec![3.141592653589793e12, 2.718281828459045e12, 1.4142135623730951e12, 1.2345678901234568e15, 9.876543210987654e15, 5.555555555555556e15];
+        for k in 0..2 {
+            let (ta, pm, qa) = (bigs[3 * k], bigs[3 * k + 2], bigs[3 * k + 1]);
             let ru = |t: &dyn QtyOps| (0..t.n_units()).find(|u| t.unit_info(*u)["is_ref"].as_bool().unwrap_or(false)).unwrap_or(0);
             let (tu, pu) = (ru(tt), ru(pt));
             for kind in ["rxq", "qxr"] {
